@@ -69,6 +69,8 @@ inductive Act
   | leaseAbandon (b : Bytes)   -- builds in the lease, never commits
   | writePanic (b : Bytes)     -- writes, then panics
   | writeMsg (b : Bytes)       -- `WriteMsg`: packs into the job's own buffer, then `Write`
+  | writeMsgU (b : Bytes) (ulen : Nat)  -- `WriteMsg` of a compressible message: `PackBuffer` picks the buffer by the
+                                        -- UNCOMPRESSED length `ulen`, the packed bytes `b` may be much shorter
 deriving Repr, DecidableEq
 
 abbrev Handler := Bytes → Entry → Act
@@ -90,6 +92,16 @@ def progMsgBytes (raw : Bytes) : Bytes :=
   [byteAt raw 0, byteAt raw 1, 128, 0, 0, 0, UInt8.ofNat (k / 256), UInt8.ofNat (k % 256), 0, 0, 0, 0] ++
     replicate k rr
 
+/-- the compressible scripted `WriteMsg` kind: `raw[13]` A records under one
+50-octet owner label; every owner after the first is a pointer to offset 12 -/
+def progMsgCBytes (raw : Bytes) : Bytes :=
+  let k := (byteAt raw 13).toNat
+  let fill : UInt8 := if raw.length > 14 then byteAt raw 14 else 0
+  let tail := fun (i : Nat) => ([0, 1, 0, 1, 0, 0, 0, 60, 0, 4, 10, UInt8.ofNat i, fill, 7] : Bytes)
+  let owner : Bytes := [50] ++ List.replicate 50 113 ++ [0]
+  [byteAt raw 0, byteAt raw 1, 128, 0, 0, 0, UInt8.ofNat (k / 256), UInt8.ofNat (k % 256), 0, 0, 0, 0] ++
+    (List.range k).flatMap fun i => (if i = 0 then owner else [192, 12]) ++ tail i
+
 /-- the scripted handler of harness/c10/script.go -/
 def program : Handler := fun raw e =>
   if raw.length < 14 then .none else
@@ -106,7 +118,7 @@ def program : Handler := fun raw e =>
   | 6 => .leaseAbandon reply
   | 7 => .writePanic reply
   | 8 => .writeMsg (progMsgBytes raw)
-  | _ => .write reply
+  | _ => .writeMsgU (progMsgCBytes raw) (12 + 66 * (byteAt raw 13).toNat)
 
 /-! ### the UDP job slab -/
 
@@ -195,6 +207,12 @@ def UdpJob.act (sz : Sizes) (j : UdpJob) : Act → UdpJob × List Datagram × Bo
   | .writeMsg b =>
     -- PackBuffer(j.tx[:]) packs into tx when it fits, then Write of that slice
     if b.length ≤ sz.udpBuf then
+      let (j', o) := ({ j with tx := overlay j.tx b }).write sz b true; (j', o, true)
+    else let (j, o) := j.write sz b false; (j, o, true)
+  | .writeMsgU b ulen =>
+    -- packed in place only when the UNCOMPRESSED form fits `tx`; otherwise PackBuffer's own
+    -- buffer is handed to Write, which copies it in
+    if ulen ≤ sz.udpBuf ∧ b.length ≤ sz.udpBuf then
       let (j', o) := ({ j with tx := overlay j.tx b }).write sz b true; (j', o, true)
     else let (j, o) := j.write sz b false; (j, o, true)
 
@@ -295,7 +313,7 @@ def lifeCycle (sz : Sizes) (h : Handler) (j : UdpJob) (q : Req) (p : Path) : Udp
 
 /-- what a handler action hands to `Write` -/
 def Act.wrote : Act → Option Bytes
-  | .write b | .lease b | .writePanic b | .writeMsg b => some b
+  | .write b | .lease b | .writePanic b | .writeMsg b | .writeMsgU b _ => some b
   | _ => Option.none
 
 /-- `Write` refuses what exceeds the buffer class; a staged reply of length
